@@ -102,7 +102,7 @@ PROPS = {
         comps=['res', 'keyset', 'order', 'ents', 'sizes', 'cur', 'max', 'clone_cap', 'clone_fresh', 'drops', 'bsim'],
         ops=['clone'],
         comps_any=['oth'],
-        theorems=['C14_equal', 'C14_fresh', 'C14_inv', 'C14_footprint_touch', 'C14_footprint_remove', 'C14_footprint_insert', 'C14_independent', 'C14_pointer_level', 'C14_clone_no_fault'],
+        theorems=['C14_equal', 'C14_fresh', 'C14_inv', 'C14_footprint_touch', 'C14_footprint_remove', 'C14_footprint_insert', 'C14_independent', 'C14_pointer_level', 'C14_clone_no_fault', 'C14_frame_ops', 'C14_independent_ops', 'C14_independent_runs', 'C14_clone_then_ops'],
         assumptions=['independence is observed as: after every operation on one cache the structural fingerprint (addresses, links, sizes, scalars) of every other live cache is bit-for-bit unchanged (flag oth)'],
     ),
     'C15': dict(
@@ -130,7 +130,7 @@ PROPS = {
         theorems=['C18_send', 'C18_sync', 'C18_send_exact', 'C18_sync_exact', 'C18_not_auto', 'C18_manual_impls', 'C18_borrow', 'C18_borrow_nonvacuous']),
     'C19': dict(
         comps=['ro', 'ro_step'], static='c19',
-        theorems=['C19_model_readonly', 'C19_clone_source_untouched', 'C19_static_no_write'],
+        theorems=['C19_model_readonly', 'C19_clone_source_untouched', 'C19_static_no_write', 'C19_pointer_level_readonly', 'C19_clone_pointer_level'],
         assumptions=['thread scheduling is not modelled; the schedules quantifier is discharged by "the heap is constant under every &self operation"',
                      'the static call graph is a syntactic over-approximation produced by the syn translator (sound for the idioms it recognises; anything unrecognised counts as a write)',
                      'clone: writes into the new cache through source-derived handles are not covered statically (Gen/README.md clone_residual); covered by the fingerprint of the source before/after clone (flag oth)', 'ro_step: for every &self operation executed as a step (peek, peek_entry, contains, peek_lru, peek_mru, iter, Debug, the scalar getters, and clone with respect to its source) the structural fingerprint of the receiver (every address, link, recorded size, token, scalar and bucket) is compared before and after, also when the operation unwinds from an injected panic in Hash / Eq / Clone'],
@@ -159,11 +159,11 @@ MANIFEST_TEXT = {
     'C06': dict(text='Theorems C06_step (per-step multiset balance of object tokens: held + introduced = held + dropped + handed back (+ leaked by a forgotten Drain)) and C06_exactly_once (any history from creation to drop: every token exactly once in dropped / returned / leaked, never two of them), C06_no_leak_without_forget. The extracted monitor c06_mon and a never-dropped-twice check run on the implementation at identity level.', note=_A + '; the ptr::read paths of owning iterators are covered at list level here and at pointer level in Layer B', technique=_T),
     'C12': dict(text='Theorems C12_split / C12_fused: for every pattern of next/next_back on every list, fronts ++ rest ++ rev backs = list, None only after exhaustion and then for ever; C12_iter / C12_drain / C12_into_iter tie the operations to that specification (drain leaves an empty, valid cache; owning iterators drop exactly the unconsumed). Item sequences of all seven iterator kinds with random patterns past exhaustion are compared.', note=_A, technique=_T),
     'C13': dict(text='Theorems over the Layer T abstraction of hashbrown capacity accounting, all oracles: C13_reserve, C13_shrink / C13_shrink_to_fit (never raises, keeps >= max(len,min)), C13_try_reserve_fail (state unchanged), C13_transparent, C13_with_capacity_step, C13_with_capacity_run (a run of any length of at most n fresh, non-evicting insertions interleaved with lookups after with_capacity(n) never changes the table and never rebuilds; induction over runs), C13_auto_growth (growth only when full, new capacity < max(4 x entries, 16)), C13_growth_bounded (over whole histories with ghost peak/request variables: full capacity < max(4 x peak len, 16) or within an explicit request, however long the churn); arithmetic of capacity_to_buckets / bucket_mask_to_capacity proved (c2b_spec). Monitors c13_mon and the history growth bound run on the implementation.', note=_A + '; tombstone behaviour of hashbrown is an oracle (over-approximated)', technique=_T),
-    'C14': dict(text='Theorems C14_equal (same entries, order, recorded sizes, counters; capacity >= source), C14_fresh, C14_inv (the clone satisfies the invariant so all theorems apply to it); Layer B frame theorems C14_footprint_touch/remove/insert and C14_independent: in a shared heap the list surgery on one cache writes only the nodes of that cache, so a cache with disjoint nodes keeps its invariant and content. On the implementation independence is observed through bit-for-bit fingerprints of all other caches after every operation.', note=_A + '; shared-heap frame theorems (Layer B) cover the list-surgery primitives, not whole public operations', technique=_T),
+    'C14': dict(text='Theorems C14_equal (same entries, order, recorded sizes, counters; capacity >= source), C14_fresh, C14_inv (the clone satisfies the invariant so all theorems apply to it); Layer B frame theorems C14_footprint_touch/remove/insert and C14_independent: in a shared heap the list surgery on one cache writes only the nodes of that cache, so a cache with disjoint nodes keeps its invariant and content; C14_frame_ops / C14_independent_ops / C14_independent_runs (B/FrameOps.v, B/FrameRun.v): the same for EVERY public operation of the pointer-level model (insertion with eviction and rebuild, mutate, retain, clear, drain, reserve, shrink) and for runs of any length from any reachable state; C14_clone_then_ops for a clone and its source. On the implementation independence is observed through bit-for-bit fingerprints of all other caches after every operation.', note=_A + '; the buckets hashbrown hands out are oracle values assumed not to be nodes of the other cache', technique=_T),
     'C15': dict(text='Theorem C15_retain for all predicates: visits = entries LRU to MRU once each with their own key/value, survivors = filter in order, size and drops re-accounted.', note=_A, technique=_T),
     'C20': dict(text='Theorem C20_bound for every operation, state and oracle: hashes + len after <= 2 + len before + added + (rebuilt ? len : 0), zero for traversals/clear/drain/LRU-MRU peeks/get_lru, rebuild only for reserve/try_reserve/shrink*/growing insertion; C20_clone. The implementation count of Hash::hash calls per API call must be <= the model count and satisfy the extracted bound c20_mon.', note=_A, technique=_T),
     'C18': dict(engine='coq-gen+rustc', text='Tables regenerated from /repo/src on every run by a syn translator (impl bounds, field types, signatures with the origin of every returned lifetime); Coq theorems over the finite generated tables (C18_send/C18_sync: the written bounds are exactly K,V,S; C18_not_auto: a raw pointer blocks the auto impls; C18_borrow: every returned reference/borrowing iterator carries the receiver lifetime); rustc is the oracle: ~290 generated probe programs (full (Send,Sync) witness cube per parameter, misuse/legitimate program per signature row) must be accepted/rejected as the tables predict.', note='rustc is the oracle for trait solving and borrow checking; the translator is syntactic; theorems are over generated finite tables (closed by computation)', technique='generated Coq tables + theorems, validated against rustc accept/reject of generated probe programs', ref='DESIGN.md section 7 (C18), coq/Gen/README.md'),
-    'C19': dict(text='(1) Theorem C19_model_readonly: every &self operation of the model is the identity on the whole state; (2) Theorem C19_static_no_write over the call graph regenerated from the source: no write primitive is reachable from any &self operation, for all inputs; (3) on the implementation the structural fingerprint (addresses, links, sizes, scalars, geometry) read through the hook is compared before and after every &self call, for present and absent keys, and the fingerprint of every other cache after every operation.', note=_A + '; static graph is a syntactic over-approximation; thread schedules are not executed, the constant-heap argument covers them', technique='Coq proof over the model + Coq proof over a call graph generated from the source + differential fingerprint comparison'),
+    'C19': dict(text='(1) Theorem C19_model_readonly: every &self operation of the model is the identity on the whole state; C19_pointer_level_readonly: every &self operation of the pointer-level model returns the identical heap, seal, list, counters and table; (2) Theorem C19_static_no_write over the call graph regenerated from the source: no write primitive is reachable from any &self operation, for all inputs; (3) on the implementation the structural fingerprint (addresses, links, sizes, scalars, geometry) read through the hook is compared before and after every &self call, for present and absent keys, and the fingerprint of every other cache after every operation.', note=_A + '; static graph is a syntactic over-approximation; thread schedules are not executed, the constant-heap argument covers them', technique='Coq proof over the model + Coq proof over a call graph generated from the source + differential fingerprint comparison'),
     'C08': dict(engine='coq-layerM+probe', text='Layer M model of src/mem_size.rs (type/value universe mirroring every override and its delegation, sizeof a Section variable): theorems C08_bulk (all four bulk helpers = element-wise sums for every nesting and list), C08_mem, C08_container, C08_wrapper, C08_depth (the flat iterator uses one frame whatever the number of empty sections), C08_flat_iterator. Tied to the code by a probe over ~300 concrete nested types with values built by random capacity scripts, eight iterator shapes, and 10^6-10^7-element runs on a 256 KiB stack in debug and release; the model is evaluated on the same terms by vm_compute.', note='Coq kernel, no axioms; sizeof is a parameter instantiated by measured numbers; totality of a Gallina function says nothing about the Rust stack: the stack clause is decided by the frame-depth model plus the large-count runs; poisoned locks excluded (DESIGN.md 9.4)', technique='Coq proof by induction on the type universe + model evaluated in Coq against the real trait implementations (differential)', ref='DESIGN.md section 7 (C08), coq/M/README.md'),
     'C09': dict(engine='coq-layerM+probe', text='Theorems C09_exact (for the exact class of constructors and any nesting, heap_size = alloc_bytes, the ground-truth model of what std keeps allocated, under len <= cap well-typedness), C09_upper, C09_map / C09_set (bounds for hash tables), C09_ref. alloc_bytes is validated against a counting global allocator on every probed value, and the real heap_size is compared with both.', note='Coq kernel, no axioms; alloc_bytes is a model of std allocation behaviour validated (exactly, on every probed value) against the counting allocator; hashbrown bucket counts recovered from capacity()', technique='Coq proof + model evaluated in Coq against the real implementation and a counting allocator (differential)', ref='DESIGN.md section 7 (C09), coq/M/README.md'),
     'C07': dict(text='Layer B (heap of nodes with links, recorded size and payload ownership; any access to a freed node or a moved-out payload faults): theorems C07_unhinge / C07_set_head / C07_touch (list surgery at every position keeps the representation invariant RI and never faults), C07_realloc (for EVERY table iteration order the reallocation loop re-links all entries, frees every old bucket, never touches freed memory, and leaves the abstract list unchanged), C07_traversal (cursors never step onto the seal). The monitor ri_check, proved sound (C07_monitor_sound), is evaluated on the implementation pointer graph read by the dangling-safe hook after every step, with address stability and lookups-hit-the-linked-bucket checks.', note='Coq kernel, no axioms; Layer B transliterates the list surgery and the reallocation loop by hand (17 pointer functions are re-translated from the source on every run and proved equal to these transliterations: Layer P); the composition of every public operation from these primitives is Layer B stepB, proved to refine Layer A (C07_public_ops_refine, C07_reachable_coherent), proved free of pointer faults (C07_no_pointer_fault, C07_no_pointer_fault_with_buckets) and run on the observed pointer graphs; the table is modelled as the set of listed buckets (hash probing is hashbrown, trusted); Rust aliasing rules not modelled', technique='Coq proof (separation-style reasoning on a functional heap, induction over arbitrary iteration orders) + extracted monitor on hook snapshots'),
